@@ -31,7 +31,8 @@ OP        ["chunk",{"cache":bool}] ["cache",{}] ["shuffle",{"n":k}|{"seeds":[..]
 LEARNER   {"kind":"random","seed":s} {"kind":"epsilon","epsilon":e,"seed":s} {"kind":"ucb","seed":s}
           {"kind":"corral","base":[LEARNER..],"base_refs":[li..],"seed":s}     (default eta; base_refs = *the same objects*
                                                                                  as listed learners li, appended to base)
-          {"kind":"history","tag":t,"fmt":"a|ap|pmf|ap_kw|pmf_kw","score":bool,"info":bool,"batch":bool}
+          {"kind":"history","tag":t,"fmt":"a|ap|pmf|ap_kw|pmf_kw","score":bool,"info":bool,"batch":bool,"finish":bool}
+              (finish: the learner implements the optional finish() hook - it releases its model and refuses later use)
               (batch: this instance takes batched calls natively - fmt ap/pmf only; otherwise it raises on a batch and
                SafeLearner falls back to row-by-row calls. Built-in bandit learners never take batches.)
           {"kind":"faulty","inner":LEARNER,"where":"params|predict|learn","at":j,"msg":m,"batches":bool}
@@ -76,7 +77,9 @@ def build_learner(d, listed=None):
     if k == "random":  return RandomLearner(seed=d.get("seed", 1))
     if k == "epsilon": return BanditEpsilonLearner(d.get("epsilon", 0.05), seed=d.get("seed", 1))
     if k == "ucb":     return BanditUCBLearner(seed=d.get("seed", 1))
-    if k == "history": return comps.HistoryLearner(d["tag"], d.get("fmt", "ap"), d.get("score", False), d.get("info", False), d.get("batch", False))
+    if k == "history":
+        cls = comps.FinishingHistoryLearner if d.get("finish") else comps.HistoryLearner
+        return cls(d["tag"], d.get("fmt", "ap"), d.get("score", False), d.get("info", False), d.get("batch", False))
     if k == "corral":
         base = [build_learner(b) for b in d.get("base", [])]
         for r in d.get("base_refs", []):
@@ -510,11 +513,12 @@ def learner_desc(draw, tag, logged=False, allow_corral=True, p_history=0.5, kw_o
     if r < p_history * 100:
         if logged:
             fmt = draw(st.sampled_from(["ap", "pmf", "ap", "pmf", "a"]))
-            return {"kind": "history", "tag": tag, "fmt": fmt, "score": True, "info": draw(st.booleans())}
+            return {"kind": "history", "tag": tag, "fmt": fmt, "score": True, "info": draw(st.booleans()), "finish": draw(st.integers(0, 9)) < 4}
         fmts = ["ap", "pmf", "a", "ap_kw", "pmf_kw"] if kw_ok else ["ap", "pmf", "a"]
         if batched: fmts = ["ap", "pmf", "ap", "pmf", "a", "ap_kw"] if kw_ok else ["ap", "pmf", "ap", "pmf", "a"]
         d = {"kind": "history", "tag": tag, "fmt": draw(st.sampled_from(fmts)), "score": draw(st.booleans()), "info": draw(st.booleans())}
         if batched: d["batch"] = draw(st.booleans())
+        d["finish"] = draw(st.integers(0, 9)) < 4
         return d
     kinds = ["random", "epsilon", "ucb", "corral"] if (allow_corral and not logged) else ["random", "epsilon", "ucb"]
     if batched: kinds = ["random", "epsilon", "epsilon"]   # BanditUCB.learn swallows a whole batch without raising (first call), so no row-by-row fallback: not C01/C03's
@@ -696,6 +700,7 @@ def desc_classes(desc):
     elif "chunk" in ops: out.append("chunk")
     if "cache" in ops: out.append("cache-prefix")
     if "logged" in ops: out.append("logged-envs")
+    if any((l["inner"] if l["kind"] == "faulty" else l).get("finish") for l in desc["learners"]): out.append("lrn-with-finish-hook")
     nb = sum(any(op[0] == "batch" for op in g["ops"]) for g in desc["groups"])
     if nb: out.append("batched-envs:" + ("all" if nb == len(desc["groups"]) else "some"))
     inner = [(l["inner"] if l["kind"] == "faulty" else l) for l in desc["learners"]]
